@@ -32,7 +32,7 @@ def encRes : Res → Sx
   | .raised (.orig _) => .atom "same"
   | .raised (.translated _ _ _ target _) => .list [.atom "translated", .str target]
 
-/-- `(c38-case hook (bases…) (frames…))` → `(ok (spec specKnown model guards))`.
+/-- `(c38-case hook (bases…) (frames…))` → `(ok (spec model guards))`.
     The model declines (`oom`) where Python itself consumes the exception (iterator protocol, hasattr, PEP 479). -/
 def handleCase : List Sx → Sx
   | [hook, bases, .list frames] =>
@@ -43,7 +43,7 @@ def handleCase : List Sx → Sx
       let model : Sx :=
         if universalSignal stack hook bases then .atom "oom"
         else encRes (eval 0 ⟨0, bases⟩ t 0)
-      Sx.ok (.list [encOutcome (expected stack hook bases), encOutcome (expectedKnown stack hook bases), model,
+      Sx.ok (.list [encOutcome (expected stack hook bases), model,
                     .list (t.guards.map fun g => .str (g.module ++ "." ++ g.func ++ "#" ++ toString g.idx))])
     | _, _, _ => Sx.bad
   | _ => Sx.bad
@@ -56,7 +56,7 @@ def encSite (s : Site) : Sx :=
     `(ok ((broad sites…) (policy sites…) (hooks sites…) (stale rows…) nSites nRenderTime))` -/
 def handleAudit : List Sx → Sx
   | [] =>
-    let tbl := documented ++ knownFindingSites
+    let tbl := documented
     Sx.ok (.list [
       .list (broadOffenders.map encSite),
       .list ((policyOffenders tbl).map encSite),
@@ -67,7 +67,19 @@ def handleAudit : List Sx → Sx
       .list ((sites.filter fun s => renderTime s && !reraises s).map encSite)])
   | _ => Sx.bad
 
+/-- `(c38-cache k)` → the module-cache state after rendering `{% import "lib" %}…one more event…` from an empty cache with
+    the fault at event `k` (event 0 is inside the module body, event 1 after the import; any larger `k`: clean run):
+    `(ok (completed (cached names…)))` -/
+def handleCache : List Sx → Sx
+  | [k] =>
+    match k.toNat? with
+    | some k =>
+      let r := runSt (some k) (.seq (.imp "lib" .ev) .ev) 0 []
+      Sx.ok (.list [Sx.ofBool r.1, .list (r.2.2.map .str)])
+    | none => Sx.bad
+  | _ => Sx.bad
+
 def handlers : List (String × (List Sx → Sx)) :=
-  [("c38-case", handleCase), ("c38-audit", handleAudit)]
+  [("c38-case", handleCase), ("c38-audit", handleAudit), ("c38-cache", handleCache)]
 
 end JinjaV.Wire.ExceptPolicy
